@@ -385,6 +385,7 @@ CALL_TEMPLATE = """val put = 1;
 %(decl)s
 var count;
 var v;
+array arr[4];
 func tick() is
 { count := count + 1
 ; put('t', 0)
@@ -426,6 +427,13 @@ def call_stage(chk, xcmp):
         stmts += [("while c - 1 do { count := count + 1; if count = 3 then 0(count + 40) else skip }", k),
                   ("while c < 2 do { count := count + 1; if count = 2 then 0(50) else skip }", k),
                   ("if (c + 1) - 2 then count := 5 else count := 6", k)]
+    # array elements with a subscript known at compile time, on both sides of an assignment, next to right-hand sides
+    # that need both registers
+    zero = "arr[0] := 0; arr[1] := 0; arr[2] := 0; arr[3] := 0; "
+    for k in (0, 2):
+        stmts += [(zero + "arr[c] := v + 35; count := arr[%d]" % k, k), (zero + "arr[c] := id(v) - 3; count := arr[%d]" % k, k),
+                  (zero + "arr[c + 1] := v + v; count := arr[%d] + arr[0]" % (k + 1), k), (zero + "arr[1] := 9; arr[c] := arr[1] + v; count := arr[c] - arr[1]", k),
+                  (zero + "arr[c] := (v < 9) + (v + 1); count := arr[c]", k)]
     items = [(e, k, "r := %s") for e, k in exprs] + [(s, k, "%s; r := 0") for s, k in stmts]
     bad, n, first = 0, 0, None
     for i, (e, k, shape) in enumerate(items):
@@ -451,7 +459,7 @@ def call_stage(chk, xcmp):
             bad += 1
             if first is None:
                 first = {"expression": e, "constant": k, "as_val": list(outs[0]), "as_var": list(outs[1])}
-    rec = {"stage": "real xcmp + real hexsim on expressions whose operands are function calls, and on while/if statements whose condition is known at compile time (constant as `val` vs assigned variable): output and exit status compared", "programs": n, "differences": bad, "first": first}
+    rec = {"stage": "real xcmp + real hexsim on expressions whose operands are function calls, on while/if statements whose condition is known at compile time, and on array elements with a compile-time subscript (constant as `val` vs assigned variable): output and exit status compared", "programs": n, "differences": bad, "first": first}
     chk.native.append(rec)
     if bad:
         p = chk.replay_path("native-calls")
